@@ -544,6 +544,24 @@ class SameMinimum:
         if bad2:
             return Result(REFUTED, backend="native", witness=dict(seed=seed, system="He unrestricted, 2 k-points"), replayed=True, replay_info=dict(energies=res2),
                           detail=f"minimisers disagree on the minimum for two spin channels and two k-points (or do not converge): {bad2} (lowest {eb2})")
+        # several occupied states (the trial step of the line-minimising schemes needs the fields of the trial point): every scheme converges within its cap
+        res3 = {}
+        # (caps: about three times the iteration counts of the unchanged tree - 21 / 27 / 84 for pccg / pclm / lm)
+        for sysname, mk in (("LiH", lambda: Atoms("LiH", [[0.0, 0.0, 0.0], [0.0, 0.0, 3.0]], ecut=5, a=12)),
+                            ("CH4", lambda: Atoms("CH4", [[0.0, 0.0, 0.0], [1.2, 1.2, 1.2], [-1.2, -1.2, 1.2], [1.2, -1.2, -1.2], [-1.2, 1.2, -1.2]], ecut=5, a=12))):
+            for name, opt in (("pccg", {"pccg": 80}), ("pclm", {"pclm": 80}), ("lm", {"lm": 250}), ("auto", {"auto": 80})):
+                if sysname == "LiH" and name == "lm":
+                    continue  # the unpreconditioned line minimisation needs more than 250 iterations for LiH in a 12 bohr cell on the unchanged tree
+                scf3 = SCF(mk(), etol=1e-8, verbose="critical", opt=opt)
+                res3[f"{sysname}.{name}"] = (float(scf3.run()), bool(scf3.is_converged), int(scf3._opt_log[name]["iter"]))
+        bad3 = {}
+        for sysname in ("LiH", "CH4"):
+            sub = {k: v for k, v in res3.items() if k.startswith(sysname)}
+            eb = min(v[0] for v in sub.values())
+            bad3.update({k: v for k, v in sub.items() if (not v[1]) or abs(v[0] - eb) > 5e-6})
+        if bad3:
+            return Result(REFUTED, backend="native", witness=dict(seed=seed, system="LiH / CH4"), replayed=True, replay_info=dict(energies=res3),
+                          detail=f"minimisers disagree on the minimum or do not converge within their cap for several occupied states: {bad3}")
         # restart from the converged state: immediate convergence, same energy
         e0 = ref.energies.Etot
         ref.opt = {"pccg": 5}
@@ -859,6 +877,25 @@ class RestartAndStoredEnergies:
             d = {k: (f[k], g[k]) for k in f if abs(f[k] - g[k]) > 1e-9}
             if d or abs(e - sum(f.values())) > 1e-12:
                 bad.append(dict(case=f"Ne: run() with GTH; pot = {newpot!r}; run()", stored_vs_fresh_object_at_the_returned_coefficients=d, returned_minus_sum_of_stored=e - sum(f.values())))
+        # (c) the band minimisation of empty states after a converged run: its own convergence flag, chained minimisers
+        at = Atoms("LiH", [[0.0, 0.0, 0.0], [0.0, 0.0, 3.0]], ecut=4, a=8)
+        eps = {}
+        for tag, opt in (("pccg alone", {"pccg": 300}), ("capped", {"pccg": 3}), ("chain", {"sd": 3, "pccg": 300})):
+            scf = SCF(at, etol=1e-8, opt={"pccg": 100}, verbose="critical")
+            scf.run()
+            if not scf.is_converged:
+                raise RuntimeError("harness: the reference run did not converge")
+            scf.opt = opt
+            scf.converge_empty_bands(Nempty=2)
+            from eminus.dft import get_epsilon_unocc
+
+            eps[tag] = (np.asarray(get_epsilon_unocc(scf, scf.W, scf.Z)).copy(), bool(scf.is_converged), {k: int(v["iter"]) for k, v in scf._opt_log.items() if k in opt})
+        if eps["capped"][1]:
+            bad.append(dict(case="LiH: run(); opt = {'pccg': 3}; converge_empty_bands(Nempty=2)", reports_converged_after=eps["capped"][2],
+                            eigenvalue_distance_from_the_converged_ones=float(np.abs(eps["capped"][0] - eps["pccg alone"][0]).max())))
+        if not eps["chain"][1] or np.abs(eps["chain"][0] - eps["pccg alone"][0]).max() > 1e-3 or "pccg" not in eps["chain"][2]:  # eigenvalues are first order in the residual
+            bad.append(dict(case="LiH: run(); opt = {'sd': 3, 'pccg': 300}; converge_empty_bands(Nempty=2)", converged=eps["chain"][1], minimisers_run=eps["chain"][2],
+                            eigenvalue_distance_from_pccg_alone=float(np.abs(eps["chain"][0] - eps["pccg alone"][0]).max())))
         return bad
 
     def __call__(self, ob, tier, seed):
@@ -875,5 +912,6 @@ class RestartAndStoredEnergies:
 
 
 register(Obligation(name="C14.run.restart_and_stored_energies", prop=PROP, engine="B", bounded=True, run=RestartAndStoredEnergies(), budget={"quick": 400, "thorough": 900},
-                    functions=["eminus.scf:SCF.run", "eminus.minimizer:scf_step", "eminus.energies:get_E", "eminus.energies:get_Eentropy"],
-                    doc="BOUNDED: restart of a converged smeared run keeps energy and contributions; after a change of the potential the stored energies are those of the returned coefficients"))
+                    functions=["eminus.scf:SCF.run", "eminus.minimizer:scf_step", "eminus.energies:get_E", "eminus.energies:get_Eentropy", "eminus.scf:SCF.converge_empty_bands"],
+                    doc="BOUNDED: restart of a converged smeared run keeps energy and contributions; after a change of the potential the stored energies are those of the returned coefficients; "
+                        "converge_empty_bands reports its own convergence (capped run: not converged; chained minimisers all run)"))
